@@ -23,14 +23,16 @@ EXTENDS Naturals, Sequences, FiniteSets, TLC
 CONSTANTS
   FixOrphanParent, \* BOOLEAN: TRUE = code as fixed (an update whose parent is orphaned / completed is rejected); FALSE = pinned original
   FixBteBranch,    \* BOOLEAN: TRUE = code as fixed (a BaseException leaving a branch still completes the executor)
-  FixEmpty         \* BOOLEAN: TRUE = code as fixed (zero branches return an empty result at once)
+  FixEmpty,        \* BOOLEAN: TRUE = code as fixed (zero branches return an empty result at once)
+  ResetFirst       \* BOOLEAN: TRUE = code as it is (the timer thread resets a due branch to PENDING BEFORE the refresh checkpoint);
+                   \*          FALSE = probe: reset only after the refresh returned (the branch still looks parked meanwhile)
 
 \* The configuration of the call: a *variable that never changes* (cf' = cf), so that one TLC run can validate traces of
-\* many differently configured calls.  cf = [script, maxc, mins, tolc, tolp]
+\* many differently configured calls.  cf = [script, maxc, mins, tolc, tolp, tfail]
 \*   script[i] : sequence of atoms; "step" (a durable step: START, function, SUCCEED), then one of "ok" "fail" "susp" "tsusp" "bte";
 \*               after "tsusp" the script continues when the branch is resubmitted
 \*   maxc : max_concurrency (0 = None); mins : min_successful (0 = None); tolc : tolerated_failure_count (99 = None);
-\*   tolp : tolerated_failure_percentage (999 = None)
+\*   tolp : tolerated_failure_percentage (999 = None); tfail : BOOLEAN, the timer thread's refresh checkpoint may fail
 VARIABLE cf
 Script == cf.script
 N == Len(cf.script)
@@ -72,10 +74,13 @@ VARIABLES
   snap,                \* snap[i] : bodies that were executing when branch i finished / parked (its callback began)
   suspSnap,            \* snap of the callback that decided to suspend
   resub,               \* branches resubmitted by the timer thread
-  chk                  \* branches whose current checkpoint passed the orphan check and is not enqueued yet
+  chk,                 \* branches whose current checkpoint passed the orphan check and is not enqueued yet
+  tph,                 \* timer thread: [ph |-> "idle" | "refresh" (about to enqueue the empty checkpoint) | "await" (blocked in it), i |-> branch]
+  tphAtSusp,           \* history: tph.ph when the suspension was decided ("none" before; "stale" if decided by a stale scan)
+  stale                \* history: callbacks whose running should_execution_suspend() scan overlapped a timer pop
 
 vars == <<bst, wph, bpos, sub, fout, scanIdx, scanT, scanI, succ, fail, event, suspExc, timers, mpc, mi, reg, pdone, parentSent,
-          items, reason, active, maxActive, decidedAt, outcomeAt, late, known, result, snap, suspSnap, resub, chk>>
+          items, reason, active, maxActive, decidedAt, outcomeAt, late, known, result, snap, suspSnap, resub, chk, tph, tphAtSusp, stale>>
 
 Atom(i) == IF bpos[i] <= Len(Script[i]) THEN Script[i][bpos[i]] ELSE "ok"
 
@@ -89,6 +94,7 @@ Init ==
   /\ items = <<>> /\ reason = "none"
   /\ active = 0 /\ maxActive = 0 /\ decidedAt = <<>> /\ outcomeAt = <<>> /\ late = {} /\ known = {} /\ result = "none"
   /\ snap = [i \in Br |-> {}] /\ suspSnap = {} /\ resub = {} /\ chk = {}
+  /\ tph = [ph |-> "idle", i |-> 0] /\ tphAtSusp = "none" /\ stale = {}
 
 ---------------------------------------------------------------------------
 \* Completion policy (transcription of ExecutionCounters / BatchResult._get_completion_reason)
@@ -252,8 +258,9 @@ BodyPut(i) ==
        [] sub[i] = "wstart" ->
             BSet(i, reg, "park", bpos[i], fout[i], "run", active, LateTag(i, FALSE),
                  IF parentSent THEN known \cup {IF FixOrphanParent THEN "check-then-put" ELSE "orphan-first-time-op"} ELSE known)
-       [] OTHER ->    \* child context SUCCEED / FAIL (sync)
-            End(i, Atom(i), LateTag(i, FALSE), IF parentSent THEN known \cup {"check-then-put"} ELSE known)
+       [] OTHER ->    \* child context SUCCEED / FAIL: synchronous - the body ends when the checkpoint call returns (ctxWait)
+            BSet(i, reg, "ctxWait", bpos[i], fout[i], "run", active, LateTag(i, FALSE),
+                 IF parentSent THEN known \cup {"check-then-put"} ELSE known)
 
 \* body steps that are not checkpoints
 BodyOther(i) ==
@@ -262,14 +269,21 @@ BodyOther(i) ==
   /\ CASE CtxExists(i) -> BSet(i, reg, "atom", bpos[i], fout[i], "run", active, late, known)
        [] sub[i] = "atom" /\ Atom(i) = "step" -> BSet(i, reg, "start", bpos[i], fout[i], "run", active, late, known)
        [] sub[i] = "fn" -> BSet(i, reg, "succeed", bpos[i], fout[i], "run", active, late, known)     \* the user function runs
+       [] sub[i] = "ctxWait" -> End(i, Atom(i), late, known)                  \* the context's completion checkpoint returned
        \* a wait / callback: its START is checkpointed first (wstart), then the branch parks
        [] sub[i] = "atom" /\ Atom(i) \in {"susp", "tsusp"} -> BSet(i, reg, "wstart", bpos[i], fout[i], "run", active, late, known)
        [] sub[i] = "park" \/ (sub[i] = "atom" /\ Atom(i) = "bte") ->
             BSet(i, reg, "atom", IF Atom(i) = "tsusp" THEN bpos[i] + 1 ELSE bpos[i], Atom(i), "done", active - 1, late, known)
        [] OTHER -> FALSE
 
+\* the checkpoint pipeline has failed (cf.tfail): whichever create_checkpoint call the branch makes or is blocked in next raises
+\* BackgroundThreadError - at any point of the body (the scripted "bte" atom is the special case "at an atom boundary")
+BodyPipelineFailed(i) ==
+  /\ cf.tfail /\ wph[i] = "run" /\ i \notin chk /\ chk' = chk
+  /\ End(i, "bte", late, known)
+
 BodyStep(i) ==
-  /\ (BodyCheck(i) \/ BodyPut(i) \/ BodyOther(i))
+  /\ (BodyCheck(i) \/ BodyPut(i) \/ BodyOther(i) \/ BodyPipelineFailed(i))
   /\ UNCHANGED <<bst, scanIdx, scanT, scanI, succ, fail, event, suspExc, timers, mpc, mi, pdone, parentSent, items, reason,
                  maxActive, decidedAt, outcomeAt, result>>
 
@@ -343,25 +357,65 @@ CbScan(i) ==
                  active, maxActive, late, known, result>>
 
 ---------------------------------------------------------------------------
-\* timer thread: a due timed suspend is reset to PENDING and resubmitted (after an empty sync checkpoint)
-TimerResubmit(i) ==
-  /\ i \in timers /\ bst[i] = "SUSPENDED_T" /\ mpc \in {"Submit", "Wait"}
+\* timer thread (TimerScheduler._timer_loop + the resubmitter closure of execute()).  One branch at a time:
+\*   TimerPop     : a due branch is popped from the heap; reset_to_pending() (code as it is: BEFORE the refresh)
+\*   TimerPut     : the empty "state refresh" checkpoint is enqueued (synchronous: the thread blocks in it)
+\*   TimerRefreshed : the checkpoint returned: (reset_to_pending() in the ResetFirst = FALSE probe;) the branch is submitted again.
+\*                  If it failed (BackgroundThreadError): fixed code records the fatal exception and sets the completion event.
+TimerUnch == UNCHANGED <<bpos, scanIdx, scanT, scanI, succ, fail, mpc, mi, reg, pdone, parentSent, items, reason,
+                         active, maxActive, decidedAt, outcomeAt, late, result>>
+ResetBranch(i, st) == /\ fout' = [fout EXCEPT ![i] = "none"] /\ sub' = [sub EXCEPT ![i] = "ctxStart"]
+
+TimerPop(i) ==
+  /\ tph.ph = "idle" /\ i \in timers /\ bst[i] = "SUSPENDED_T" /\ mpc \in {"Submit", "Wait"}
   /\ timers' = timers \ {i}
-  /\ bst' = [bst EXCEPT ![i] = "RUNNING"] /\ wph' = [wph EXCEPT ![i] = "queued"]
-  /\ fout' = [fout EXCEPT ![i] = "none"] /\ sub' = [sub EXCEPT ![i] = "ctxStart"]
-  /\ UNCHANGED <<bpos, scanIdx, scanT, scanI, succ, fail, event, suspExc, mpc, mi, reg, pdone, parentSent, items, reason,
-                 active, maxActive, decidedAt, outcomeAt, late, known, result>>
+  /\ tph' = [ph |-> "refresh", i |-> i]
+  /\ IF ResetFirst THEN bst' = [bst EXCEPT ![i] = "PENDING"] /\ ResetBranch(i, "PENDING")
+                   ELSE UNCHANGED <<bst, fout, sub>>
+  /\ UNCHANGED <<wph, event, suspExc, known>> /\ TimerUnch
+
+TimerPut ==
+  /\ tph.ph = "refresh"
+  /\ tph' = [tph EXCEPT !.ph = "await"]
+  /\ UNCHANGED <<bst, wph, fout, sub, timers, event, suspExc, known>> /\ TimerUnch
+
+TimerRefreshed(ok) ==
+  /\ tph.ph = "await" /\ (ok \/ cf.tfail)
+  /\ tph' = [ph |-> "idle", i |-> 0]
+  /\ LET i == tph.i IN
+     IF ok
+       THEN \* submit_task: a new future on the pool (refused once the pool was shut down: the timer thread dies, nothing happens)
+            IF mpc \in {"Submit", "Wait", "Cancel"}
+              THEN /\ bst' = [bst EXCEPT ![i] = "RUNNING"] /\ wph' = [wph EXCEPT ![i] = "queued"]
+                   /\ (IF ResetFirst THEN UNCHANGED <<fout, sub>> ELSE ResetBranch(i, "PENDING"))
+                   /\ UNCHANGED <<event, suspExc, known>>
+              ELSE UNCHANGED <<bst, wph, fout, sub, event, suspExc, known>>
+       ELSE /\ UNCHANGED <<bst, wph, fout, sub>>
+            /\ IF FixBteBranch
+                 THEN event' = TRUE /\ suspExc' = (IF event THEN suspExc ELSE "fatal") /\ UNCHANGED known
+                 ELSE known' = known \cup {"bte-in-branch"} /\ UNCHANGED <<event, suspExc>>
+  /\ UNCHANGED timers /\ TimerUnch
 
 H3 == UNCHANGED <<snap, suspSnap, resub>>
 H4 == UNCHANGED chk
-MainStep == (MainSubmit \/ MainWake \/ MainCancel \/ MainRaiseSuspend \/ MainBuild \/ MainParentCkpt) /\ H3 /\ H4
+\* (the scan reads one status per step: a scan that began before the timer thread popped a branch can finish on stale reads and
+\*  decide to suspend although that branch is being resumed - named "stale": needs a done-callback stalled for the whole wait)
+H5 == /\ UNCHANGED tph
+      /\ tphAtSusp' = (IF suspExc' # suspExc /\ suspExc' \in {"timed", "indef"}
+                         THEN (IF \E j \in stale : wph[j] = "scan" /\ wph'[j] # "scan" THEN "stale" ELSE tph.ph)
+                         ELSE tphAtSusp)
+      /\ stale' = {j \in stale : wph'[j] = "scan"}
+MainStep == (MainSubmit \/ MainWake \/ MainCancel \/ MainRaiseSuspend \/ MainBuild \/ MainParentCkpt) /\ H3 /\ H4 /\ H5
 WorkerStep(i) ==
-  \/ (WorkerTake(i) /\ H3 /\ H4)
-  \/ (BodyStep(i) /\ H3)
-  \/ (CbWrite(i) /\ snap' = [snap EXCEPT ![i] = {j \in Br : j # i /\ wph[j] = "run"}] /\ UNCHANGED <<suspSnap, resub>> /\ H4)
-  \/ (CbDecide(i) /\ H3 /\ H4)
-  \/ (CbScan(i) /\ suspSnap' = (IF suspExc' # suspExc THEN snap[i] ELSE suspSnap) /\ UNCHANGED <<snap, resub>> /\ H4)
-TimerStep(i) == TimerResubmit(i) /\ resub' = resub \cup {i} /\ UNCHANGED <<snap, suspSnap>> /\ H4
+  \/ (WorkerTake(i) /\ H3 /\ H4 /\ H5)
+  \/ (BodyStep(i) /\ H3 /\ H5)
+  \/ (CbWrite(i) /\ snap' = [snap EXCEPT ![i] = {j \in Br : j # i /\ wph[j] = "run"}] /\ UNCHANGED <<suspSnap, resub>> /\ H4 /\ H5)
+  \/ (CbDecide(i) /\ H3 /\ H4 /\ H5)
+  \/ (CbScan(i) /\ suspSnap' = (IF suspExc' # suspExc THEN snap[i] ELSE suspSnap) /\ UNCHANGED <<snap, resub>> /\ H4 /\ H5)
+TimerPopStep(i) == /\ TimerPop(i) /\ resub' = resub \cup {i} /\ UNCHANGED <<snap, suspSnap, tphAtSusp>> /\ H4
+                   /\ stale' = stale \cup {j \in Br : wph[j] = "scan"}
+TimerThreadStep == (TimerPut \/ TimerRefreshed(TRUE) \/ TimerRefreshed(FALSE)) /\ H3 /\ H4 /\ UNCHANGED <<tphAtSusp, stale>>
+TimerStep(i) == TimerPopStep(i) \/ TimerThreadStep
 
 Quiet == /\ mpc = "Returned" \/ (mpc = "Wait" /\ ~event)
          /\ \A i \in Br : ~ENABLED WorkerStep(i)
@@ -430,6 +484,10 @@ NoKnownOpAfterParentDone == \A x \in late : x[2] \notin {"update"} \/ "orphan-fi
 \* (a branch resubmitted by the timer thread after the deciding branch finished is outside the property's scope; see DESIGN)
 SuspendSound == result = "suspended" => \A j \in suspSnap : wph[j] # "run" \/ j \in resub
 SuspendNobodyRunning == result = "suspended" => \A i \in Br : wph[i] # "run"
+\* ... and never while the timer thread is in the middle of resuming a branch whose timer has expired: that branch is neither
+\* parked on anything registered with the backend nor running yet (holds because the branch is PENDING during the refresh)
+SuspendNotWhileResuming == tphAtSusp \in {"none", "idle", "stale"}
+SuspendNotWhileResumingStrict == tphAtSusp \in {"none", "idle"}
 
 \* C06/C07/C09: the main thread never waits forever (safety form: when nothing can move any more it has returned)
 NoHang == Quiet => (mpc = "Returned" \/ "bte-in-branch" \in known \/ "empty-input" \in known)
